@@ -380,6 +380,12 @@ def bounded(tier, seed):
             exp = np.concatenate([np.arange(n - 1), np.arange(1, n)])
             if not np.array_equal(idx, exp):
                 return 'time2idx at 0.4/0.6 of a step: %r expected %r' % (idx.tolist(), exp.tolist())
+            # instants a millisecond before / after the middle of a step (the nearer coordinate is unambiguous in exact time arithmetic)
+            ms = timedelta(milliseconds=1)
+            qm = [ref + timedelta(hours=step_h * (i + 0.5)) - ms for i in range(n - 1)] + [ref + timedelta(hours=step_h * (i + 0.5)) + ms for i in range(n - 1)]
+            idxm = np.asarray(f.time2idx(qm, dim='time'))
+            if not np.array_equal(idxm, exp):
+                return 'time2idx one millisecond before / after the middle of a step: %r expected %r' % (idxm.tolist(), exp.tolist())
             got = f.getTimes()
             if [t.replace(tzinfo=timezone.utc) for t in got] != times:
                 return 'getTimes differs'
